@@ -482,8 +482,10 @@ func reifyValue(
 			return reflect.Value{}, raiseKeyInvalidTypeUnpack(baseType, sub)
 		}
 
+		// (the validators of the field apply to the fresh map like to one that is
+		// merged into)
 		newMap := reflect.MakeMap(baseType)
-		if err := reifyInto(opts.opts, newMap, sub); err != nil {
+		if err := reifyMap(opts.opts, newMap, sub, opts.validators); err != nil {
 			return reflect.Value{}, err
 		}
 		return newMap, nil
